@@ -1044,6 +1044,12 @@ func (r *runner) script(pos position, out *outcome) (variant string, peerClosed 
 		out.Injected = true
 		switch r.fault {
 		case fOtherAdmitted:
+			if len(e.Others) == 0 {
+				// a stale replay: the table no longer has an alternative here
+				r.logf("no other admitted kind at this position any more: legitimate reply sent")
+				r.send(e.Send)
+				return false
+			}
 			w := e.Others[mod(cs.Variant, len(e.Others))]
 			r.logf("FAULT other-admitted: %s instead of %s", w.Kind, e.Send.Kind)
 			r.send(w)
